@@ -1,12 +1,12 @@
 \* C02 reciprocity -- thorough
 CONSTANTS
   ShiftStyle = "pad" LevelStyle = "match" TruncStyle = "exact" AnalyticStyle = "outer" BCubic = "plus"
-  Sizes = {202, 302, 403, 304, 502}
+  Sizes = {202, 302, 403, 304}
   Cells = {11, 23, 32}
-  Halos = {99, 0, 1, 2, 3, 4, 5, 6}
-  ModeSet = {202, 402, 204, 404, 1212}
+  Halos = {99, 0, 1, 2, 3, 4, 6}
+  ModeSet = {202, 402, 204, 1212}
   NZs = {4}
-  LevelLists = "asc"
+  LevelLists = "single"
   Tabs = {1, 2}
   Analytic = {FALSE, TRUE}
   Family = "recip"
